@@ -22,7 +22,7 @@ def split_mux(predicate):
                         i.store.set_state(state, i.key, current_predicate)
                         observer.on_next(rs.OnCreateMux((i.key[0], i.key), i.store))
 
-                    if new_predicate != current_predicate:
+                    elif new_predicate != current_predicate:
                         i.store.set_state(state, i.key, new_predicate)
                         observer.on_next(rs.OnCompletedMux((i.key[0], i.key), i.store))
                         observer.on_next(rs.OnCreateMux((i.key[0], i.key), i.store))
